@@ -69,7 +69,8 @@ pub mod lab {
     pub const CLONE_RING_IN: u32 = 52;
     pub const CLONE_MAKES_UNIQUE: u32 = 53;
     pub const DROP_WHILE_UNWINDING: u32 = 54;
-    pub const NAMES: [&str; 55] = [
+    pub const MAKEMUT_STORED: u32 = 55;
+    pub const NAMES: [&str; 56] = [
         "group>=2_collected",
         "group>=3_collected",
         "zero_count_death_with_records",
@@ -125,6 +126,7 @@ pub mod lab {
         "payload_clone_put_the_object_into_a_ring_and_dropped_its_outside_handles",
         "payload_clone_removed_every_other_handle_to_the_object",
         "handle_dropped_while_the_thread_is_unwinding",
+        "make_mut_on_a_stored_handle",
     ];
 }
 
@@ -171,6 +173,8 @@ pub struct Cfg {
     pub clone_panics: u8,
     /// FULL histories that also use the handle-consuming ops (C09)
     pub allow_consume: bool,
+    /// make_mut may be called in place on a handle stored inside a value
+    pub slot_consume: bool,
     /// the payload's Clone (called by make_mut) runs the value's action script
     /// (re-entrant API use from inside make_mut)
     pub clone_reentrant: bool,
